@@ -42,6 +42,7 @@ theorem uper_accepts_variant_bytes (t : PTy) (hw : wfP t = true) (v : Val) (hc :
     present with contents AA BB 01: bitmap length 0000100, bitmap `10001`, and one more open type `03 AA BB 01`. -/
 example :
     let t : PTy := .seq [.boolean] [⟨false, none, false⟩] true [.boolean, .octstr ⟨0, none, false⟩, .null]
+      [⟨false, none, true⟩, ⟨true, none, true⟩, ⟨true, none, true⟩]
     let v : Val := .seq [.bool true, .bool false, .absent, .absent]
     wfP t = true ∧ ucanonP t v = true ∧
       (encUV t v {}).map (fun p => complete p.1) = some [0xc1, 0x40, 0x10, 0x00] ∧
@@ -73,20 +74,23 @@ theorem ucanonRootP_of (ms : List PTy) (ih : ∀ m ∈ ms, ∀ v, canonV m v = t
     · exact Or.inr ⟨h1.1, ih m (by simp) v h1.2⟩
 
 theorem ucanonAddsP_of (ms : List PTy) (ih : ∀ m ∈ ms, ∀ v, canonV m v = true → ucanonP m v = true) :
-    ∀ (vs : List Val), canonAdds ms vs = true → ucanonAddsP ms vs = true := by
+    ∀ (as : List Attr) (vs : List Val), canonAdds ms as vs = true → ucanonAddsP ms vs = true := by
   induction ms with
-  | nil => intro vs _; simp [ucanonAddsP]
+  | nil => intro as vs _; simp [ucanonAddsP]
   | cons m ms ihms =>
-    intro vs h
+    intro as vs h
+    cases as with
+    | nil => simp [canonAdds] at h
+    | cons a as =>
     cases vs with
     | nil => simp [canonAdds] at h
     | cons v vs =>
     simp only [canonAdds, Bool.and_eq_true, Bool.or_eq_true] at h
     simp only [ucanonAddsP, Bool.and_eq_true, Bool.or_eq_true]
-    refine ⟨?_, ihms (fun x hx => ih x (by simp [hx])) vs h.2⟩
+    refine ⟨?_, ihms (fun x hx => ih x (by simp [hx])) as vs h.2⟩
     rcases h.1 with h1 | h1
     · exact Or.inl h1
-    · exact Or.inr (ih m (by simp) v h1)
+    · exact Or.inr (ih m (by simp) v h1.2)
 
 theorem ucanonAltP_of (ms : List PTy) (ih : ∀ m ∈ ms, ∀ v, canonV m v = true → ucanonP m v = true) :
     ∀ (i : Nat) (v : Val), canonAlt ms i v = true → ucanonAltP ms i v = true := by
@@ -112,12 +116,12 @@ theorem ucanonP_of_canonV : ∀ (t : PTy) (v : Val), canonV t v = true → ucano
   · intro sz v h; simpa [ucanonP] using h
   · intro cw a b sz v h; simpa [ucanonP] using h
   · intro v h; simpa [ucanonP] using h
-  · intro root rattrs ext adds ihr iha v h
+  · intro root rattrs ext adds aattrs ihr iha v h
     cases v with
     | seq vs =>
       simp only [canonV, Bool.and_eq_true] at h
       simp only [ucanonP, Bool.and_eq_true]
-      exact ⟨ucanonRootP_of root ihr rattrs vs h.1, ucanonAddsP_of adds iha _ h.2⟩
+      exact ⟨ucanonRootP_of root ihr rattrs vs h.1, ucanonAddsP_of adds iha aattrs _ h.2⟩
     | _ => simp [canonV] at h
   · intro root order ext adds ihr iha v h
     cases v with
